@@ -16,10 +16,10 @@ import (
 )
 
 type Blk struct {
-	Kind string // task seq par if loop sub skip
-	ID   int    // task: task number; if/loop: variable index; gateways get numbers at compile time
-	Kids []*Blk // seq, par: n kids; if: [then, else]; loop, sub: [body]
-	N    int    // loop: number of iterations the driver asks for (the loop task is answered "again" N-1 times)
+	Kind string // task seq par if loop sub skip incl ctask
+	ID   int    // task, ctask: task number; if/loop: variable index; incl: first variable; gateways get numbers at compile time
+	Kids []*Blk // seq, par: n kids; if: [then, else]; loop, sub: [body]; incl: [a, b, default]; ctask: [then, else]
+	N    int    // loop: number of iterations the driver asks for; incl: second variable; ctask: variable
 }
 
 func (b *Blk) Coq() string {
@@ -44,6 +44,10 @@ func (b *Blk) Coq() string {
 		return fmt.Sprintf("(BLoop %d %s)", b.ID, b.Kids[0].Coq())
 	case "sub":
 		return fmt.Sprintf("(BSub %s)", b.Kids[0].Coq())
+	case "incl":
+		return fmt.Sprintf("(BIncl %d %d %s %s %s)", b.ID, b.N, b.Kids[0].Coq(), b.Kids[1].Coq(), b.Kids[2].Coq())
+	case "ctask":
+		return fmt.Sprintf("(BCond %d %d %s %s)", b.ID, b.N, b.Kids[0].Coq(), b.Kids[1].Coq())
 	}
 	panic("kind " + b.Kind)
 }
@@ -167,6 +171,50 @@ func (c *blkCompiler) compile(p *Prog, b *Blk) (in, out string) {
 		p.Node("xor", o)
 		xn.Default = p.Flow(x, o, "").ID
 		return m, o
+	case "incl":
+		f, j := c.fresh("IF"), c.fresh("IJ")
+		fn := p.Node("incl", f)
+		p.Node("incl", j)
+		for i, k := range b.Kids {
+			cond := ""
+			if i == 0 {
+				cond = fmt.Sprintf("v%d", b.ID)
+			} else if i == 1 {
+				cond = fmt.Sprintf("v%d", b.N)
+			}
+			ki, ko := c.compile(p, k)
+			var fl *PFlow
+			if ki == "" {
+				fl = p.Flow(f, j, cond)
+			} else {
+				fl = p.Flow(f, ki, cond)
+				p.Flow(ko, j, "")
+			}
+			if i == 2 {
+				fn.Default = fl.ID
+			}
+		}
+		return f, j
+	case "ctask":
+		id := fmt.Sprintf("T%d", b.ID)
+		n := p.Node("task", id)
+		n.Results = []string{"v0", "v1", "v2", "v3"}
+		m := c.fresh("M")
+		p.Node("xor", m)
+		for i, k := range b.Kids {
+			cond := fmt.Sprintf("v%d", b.N)
+			if i == 1 {
+				cond = "!" + cond
+			}
+			ki, ko := c.compile(p, k)
+			if ki == "" {
+				p.Flow(id, m, cond)
+			} else {
+				p.Flow(id, ki, cond)
+				p.Flow(ko, m, "")
+			}
+		}
+		return id, m
 	case "sub":
 		s := c.fresh("S")
 		n := p.Node("sub", s)
@@ -268,6 +316,20 @@ func bstart(env []bool, b *Blk) *brun {
 		return bloop(env, bstart(env, b.Kids[0]), b)
 	case "sub":
 		return bsub(bstart(env, b.Kids[0]))
+	case "incl":
+		if env[b.ID] || env[b.N] {
+			a, bb := bdone, bdone
+			if env[b.ID] {
+				a = bstart(env, b.Kids[0])
+			}
+			if env[b.N] {
+				bb = bstart(env, b.Kids[1])
+			}
+			return bpar(a, bb)
+		}
+		return bstart(env, b.Kids[2])
+	case "ctask":
+		return bseq(env, &brun{kind: "task", id: b.ID}, &Blk{Kind: "if", ID: b.N, Kids: b.Kids})
 	}
 	panic("kind")
 }
@@ -343,6 +405,8 @@ type blkGen struct {
 	rng   *rand.Rand
 	ntask int
 	loops int
+	full  bool // also inclusive blocks and tasks with conditional outgoing flows (C01)
+	noGw  int  // > 0 while generating the branches of an inclusive block: no parallel/inclusive block there (known finding C01-gateway-nested-in-inclusive)
 }
 
 // gen produces a block with at most `size` tasks; loopTask remembers, per loop, the task whose answers steer it
@@ -350,6 +414,29 @@ func (g *blkGen) gen(size, depth int, allowLoop bool) *Blk {
 	if size <= 1 || depth == 0 {
 		g.ntask++
 		return &Blk{Kind: "task", ID: g.ntask}
+	}
+	if g.full {
+		switch k := g.rng.Intn(10); {
+		case k < 2 && g.noGw == 0:
+			b := &Blk{Kind: "incl", ID: g.rng.Intn(3), N: g.rng.Intn(3)}
+			g.noGw++
+			for i := 0; i < 3; i++ {
+				b.Kids = append(b.Kids, g.gen(size/3+1, depth-1, false))
+			}
+			g.noGw--
+			if g.rng.Intn(3) == 0 {
+				b.Kids[g.rng.Intn(3)] = &Blk{Kind: "skip"}
+			}
+			return b
+		case k < 4:
+			g.ntask++
+			b := &Blk{Kind: "ctask", ID: g.ntask, N: g.rng.Intn(3)}
+			b.Kids = []*Blk{g.gen(size/2, depth-1, allowLoop), g.gen(size/2, depth-1, allowLoop)}
+			if g.rng.Intn(3) == 0 {
+				b.Kids[g.rng.Intn(2)] = &Blk{Kind: "skip"}
+			}
+			return b
+		}
 	}
 	switch k := g.rng.Intn(10); {
 	case k < 3:
@@ -359,7 +446,7 @@ func (g *blkGen) gen(size, depth int, allowLoop bool) *Blk {
 			b.Kids = append(b.Kids, g.gen(size/n+1, depth-1, allowLoop))
 		}
 		return b
-	case k < 6:
+	case k < 6 && g.noGw == 0:
 		n := 2 + g.rng.Intn(2)
 		b := &Blk{Kind: "par"}
 		for i := 0; i < n; i++ {
